@@ -3,8 +3,8 @@ from vlib import CaseT, hexs, f32bits
 from wbprop import WigBedProp
 import bbgen
 
-WIG_CLASSES = ["overlap", "start_gt_end", "end_gt_len", "unknown_chrom", "chrom_order", "malformed", "empty", "out_of_order"]
-BED_CLASSES = ["out_of_order", "start_gt_end", "start_ge_len", "unknown_chrom", "chrom_order", "malformed", "empty"]
+WIG_CLASSES = ["overlap", "start_gt_end", "end_gt_len", "unknown_chrom", "chrom_order", "malformed", "empty", "out_of_order", "not_grouped"]
+BED_CLASSES = ["out_of_order", "start_gt_end", "start_ge_len", "unknown_chrom", "chrom_order", "malformed", "empty", "not_grouped"]
 
 
 def base_input(rng, bed):
@@ -45,7 +45,7 @@ class C13(WigBedProp):
             "chromosome, chromosomes out of order, malformed line, empty input; bigBed: out-of-order starts, start > end, start "
             "beyond the chromosome, …) injected at EVERY item position of the first / middle / last chromosome of a valid "
             "three-chromosome input × {bigWig, bigBed} × {iterator, file, parallel file source} × {single pass, two pass}; plus "
-            "the same classes at EVERY chromosome position of 8-chromosome inputs (more chromosomes than the parallel source queues at once); valid degenerate inputs (only zero-length items, one item, a chromosome listed but absent, odd manual zoom lists). "
+            "input that is not grouped (a chromosome with a second run later in the file; every sort mode); the same classes at EVERY chromosome position of 8-chromosome inputs (more chromosomes than the parallel source queues at once); valid degenerate inputs (only zero-length items, one item, a chromosome listed but absent, odd manual zoom lists). "
             "Every call runs under catch_unwind and a 15 s watchdog. Non-trivial = an injected violation (all but the valid ones)")
     removable = ()
 
@@ -72,7 +72,7 @@ class C13(WigBedProp):
                                     k += 1
         # many chromosomes (more than the parallel source queues at once): a violation in / at EVERY chromosome position
         for bed in (False, True):
-            for cls in ("chrom_order", "unknown_chrom", "overlap_or_order", "malformed"):
+            for cls in ("chrom_order", "unknown_chrom", "overlap_or_order", "malformed", "not_grouped"):
                 for nch in ((7, 9) if tier == "thorough" else (8,)):
                     for pos in range(nch):
                         for src in ("iter", "file", "par"):
@@ -85,6 +85,17 @@ class C13(WigBedProp):
                                 if c:
                                     out.append(c)
                                 k += 1
+        # VALID inputs with more chromosomes than any internal queue or channel holds (the parallel source queues five; the
+        # two-pass writer hands one message per chromosome to a channel per zoom level): every executor flavour and channel size
+        for bed in (False, True):
+            for nch in ((12, 40, 120) if tier == "thorough" else (12, 120)):
+                for src in ("iter", "file", "par"):
+                    for ps in (1, 2):
+                        for rep in range(2 if nch == 12 else 1):
+                            c = self.make_many(rng.fork(f"valid{k}"), k, bed, "valid", nch, 0, src, ps)
+                            if c:
+                                out.append(c)
+                            k += 1
         # valid degenerate inputs: must be accepted and must return
         for bed in (False, True):
             for variant in ("zero_only", "one_item", "absent_chrom", "zero_mid", "zero_start_only_chrom2"):
@@ -98,6 +109,8 @@ class C13(WigBedProp):
         return out
 
     def make(self, r, k, bed, cls, ci, pi, src, ps):
+        if cls == "not_grouped":
+            return None                     # injected by make_many
         names, sizes, data = base_input(r, bed)
         nm = names[ci]
         items = data[nm]
@@ -170,7 +183,7 @@ class C13(WigBedProp):
         return CaseT(f"i{k}", "bed" if bed else "wig", [], lines, tags)
 
     def make_many(self, r, k, bed, cls, nch, pos, src, ps):
-        names = [f"c{i:02d}" for i in range(nch)]
+        names = [f"c{i:03d}" for i in range(nch)]
         sizes = {n: 300 + 10 * i for i, n in enumerate(names)}
         data = {}
         for n in names:
@@ -181,10 +194,13 @@ class C13(WigBedProp):
                 items.append((a, a + ln, "x" if bed else f32bits(float(r.range(1, 5)))))
                 a += ln + r.range(0, 9)
             data[n] = items
+        rt = r.choice(["mt", "ct"])
         o = {"compress": r.choice([0, 1]), "ips": r.choice([1, 2, 1024]), "bs": r.choice([2, 256]),
-             "zooms": r.choice(["auto", "none", "10"]), "pass": ps, "inmem": r.choice([0, 1]), "rt": "mt",
-             "threads": r.choice([1, 2, 4]), "chan": r.choice([0, 1, 100]), "src": src, "sort": "all"}
-        tags = {cls if cls != "overlap_or_order" else "out_of_order", f"src_{src}", f"pass_{ps}", "bed" if bed else "wig", f"chrom_{pos}_of_{nch}", "injected", "many_chroms"}
+             "zooms": r.choice(["auto", "none", "10"]), "pass": ps, "inmem": r.choice([0, 1]), "rt": rt,
+             "threads": 1 if rt == "ct" else r.choice([1, 2, 4]), "chan": r.choice([0, 1, 3, 100]), "src": src, "sort": "all"}
+        tags = {cls if cls != "overlap_or_order" else "out_of_order", f"src_{src}", f"pass_{ps}", "bed" if bed else "wig", f"chrom_{pos}_of_{nch}", "injected", "many_chroms", f"rt_{rt}"}
+        if cls == "valid":
+            tags = {"valid_many_chroms", f"src_{src}", f"pass_{ps}", "bed" if bed else "wig", f"rt_{rt}", f"chan_{o['chan']}", f"chroms_{nch}"}
         order = list(names)
         raw_text = None
         if cls == "chrom_order":
@@ -204,6 +220,17 @@ class C13(WigBedProp):
                     return None
             else:
                 data[names[pos]].append((e0 - 1, e0 + 3, x0))           # overlaps its predecessor
+        elif cls == "not_grouped":
+            # chromosome `pos` has a second run later in the file (or, for the last one, an earlier chromosome comes back):
+            # refused in every sort mode — with chromosome order not required this is the only thing wrong with the input
+            if nch < 3:
+                return None
+            back = names[pos] if pos < nch - 2 else names[0]
+            a0 = data[back][-1][1] + 50
+            extra = (back, [(a0, a0 + 5, "x" if bed else f32bits(1.0))])
+            o["sort"] = r.choice(["start", "start", "all"])
+            tags.add(f"sort_{o['sort']}")
+            order = list(names) + [None]
         elif cls == "malformed":
             flat = sum(len(data[n]) for n in names[:pos])
             nm = names[pos]
@@ -211,7 +238,11 @@ class C13(WigBedProp):
             raw_text = text_of(names, data, bed, (flat, bad))
         lines = [bbgen.opt_line(o)] + [f"CHROM {n} {l}" for n, l in sizes.items()]
         for n in order:
-            for (a, b, x2) in data[n]:
+            if n is None:
+                n, rows = extra
+            else:
+                rows = data[n]
+            for (a, b, x2) in rows:
                 lines.append(f"E {n} {a} {b} {hexs(x2)}" if bed else f"V {n} {a} {b} {x2}")
         if raw_text is not None:
             lines.append("TEXT " + hexs(raw_text))
@@ -246,7 +277,7 @@ class C13(WigBedProp):
             return None                     # the model does not parse text; the oracle judges these
         a = il[0] if il else "R missing"
         b = ml[0] if ml else "R model-missing"
-        if case.opts().get("src") in ("par", "parix") or "chrom_order" in case.tags:
+        if case.opts().get("src") in ("par", "parix") or case.tags & {"chrom_order", "not_grouped"}:
             # the parallel source raises the same refusals from up to five chromosomes ahead, so the class may
             # differ from the serial order of discovery; the property asks for an error value
             a, b = " ".join(a.split(" ")[:2]), " ".join(b.split(" ")[:2])
